@@ -84,6 +84,12 @@ func Load(patterns ...string) (*Engine, error) {
 		MaxBlockVis:  40,
 	}
 	cfgS.Contracts, e.Unbound = specs.Bind(prog)
+	cfgS.IfaceContracts = map[string]*sym.Contract{}
+	for _, c := range specs.Contracts {
+		if c.Iface {
+			cfgS.IfaceContracts[c.Key] = c
+		}
+	}
 	for fn, c := range cfgS.Contracts {
 		if c.HasMod && !c.Inline {
 			cfgS.Modular[fn] = true
@@ -106,6 +112,9 @@ func Load(patterns ...string) (*Engine, error) {
 	}
 	sort.Slice(e.named, func(i, j int) bool { return e.named[i].String() < e.named[j].String() })
 	if err := e.Env.BindAggs(); err != nil {
+		return nil, err
+	}
+	if err := e.Env.BindRowInvs(); err != nil {
 		return nil, err
 	}
 	e.LoadSecs = time.Since(start).Seconds()
@@ -139,8 +148,16 @@ func (e *Engine) resolveImpl(iface types.Type, method string) *ssa.Function {
 				ms := e.Prog.MethodSets.MethodSet(t)
 				for i := 0; i < ms.Len(); i++ {
 					if ms.At(i).Obj().Name() == method {
-						if f := e.Prog.MethodValue(ms.At(i)); f != nil {
-							cands = append(cands, f)
+						if f := e.Prog.MethodValue(ms.At(i)); f != nil && f.Synthetic == "" {
+							dup := false
+							for _, c := range cands {
+								if c == f {
+									dup = true
+								}
+							}
+							if !dup {
+								cands = append(cands, f)
+							}
 						}
 					}
 				}
@@ -151,6 +168,9 @@ func (e *Engine) resolveImpl(iface types.Type, method string) *ssa.Function {
 	var f *ssa.Function
 	if len(cands) == 1 {
 		f = cands[0]
+	}
+	if os.Getenv("GOVC_DEBUG") != "" {
+		fmt.Fprintf(os.Stderr, "resolve %s: %d candidates %v (named=%d)\n", key, len(cands), cands, len(e.named))
 	}
 	e.implMemo[key] = f
 	return f
